@@ -206,6 +206,13 @@ pub fn check_program(prog: &Program, seed: u64, thorough: bool, rep: &mut Report
 }
 
 pub fn run(p: &Params, rep: &mut Report) {
+    if p.shard == 7 {
+        // operand and class counts beyond 2^10 (and, for one term, beyond 2^16)
+        for n in if p.thorough { vec![1100u32, 2100, 4200] } else { vec![1100u32] } {
+            super::ladder::wide_union(rep, "C02", n, p.seed);
+        }
+        super::ladder::wide_tree(rep, "C02", 65_600, p.seed);
+    }
     if p.shard == 2 {
         let n = if p.thorough { 20_000 } else { 8_000 };
         super::deep::probe(rep, "re-literal", n, &super::deep::expect_re_literal(n), "compile", p.seed);
